@@ -152,6 +152,10 @@ func Start(bin string, dir string, cfg Cfg) (*Agent, error) {
 		conf["qci_qos_config"] = []QciQos{}
 	}
 
+	if lv := os.Getenv("VERIF_AGENT_LOG"); lv != "" { // debugging aid: the agent's log level for a run by hand
+		cfg.LogLevel = lv
+	}
+
 	if cfg.LogLevel != "" {
 		conf["log_level"] = cfg.LogLevel
 	}
